@@ -267,9 +267,9 @@ def c20(tier, repo=None):
               ("D7: a second Compile appends to the handler maps the first runnable shares", "wf", 0, 1, dict(build.REPAIRED, FixD7=False), "FrozenMaps")]
     if tier == "quick":
         models = [("seq", 2, 0, ["AllOutcome", "FrozenMaps"]), ("seqp", 2, 0, ["AllOutcome", "FrozenMaps"]), ("wf", 0, 2, ["AllOutcome", "FrozenMaps"]),
-                  ("wfin", 3, 0, ["AllOutcome", "FrozenMaps"]), ("flow", 1, 1, ["AllOutcome", "FrozenMaps"]),
+                  ("wfin", 3, 1, ["AllOutcome", "FrozenMaps"]), ("flow", 1, 1, ["AllOutcome", "FrozenMaps"]),
                   ("chain", 2, 2, ["AllOutcome", "FrozenMaps"]), ("cyc", 3, 0, ["AllOutcome", "FrozenMaps"], 2)]
-        fams = [dict(fam="seq", adds=2, post=0), dict(fam="seqp", adds=2, post=0), dict(fam="wf", adds=0, post=2), dict(fam="wfin", adds=3, post=0),
+        fams = [dict(fam="seq", adds=2, post=0), dict(fam="seqp", adds=2, post=0), dict(fam="wf", adds=0, post=2), dict(fam="wfin", adds=3, post=1),
                 dict(fam="flow", adds=1, post=1), dict(fam="chain", adds=2, post=2), dict(fam="cyc", adds=3, post=0, br=2),
                 dict(fam="seqs", adds=2, post=1, simulate="num=240", depth=50, limit=5000),
                 dict(fam="seq", adds=4, post=2, aftererr=2, simulate="num=320", depth=70, limit=8000)]
